@@ -64,6 +64,12 @@ def run_one(ob):
         out["construct"] = f"{_rel(mod)}::{fn}"
         out["detail"] = dict(kind=e.kind, message=e.msg, at=f"{_rel(mod)}:{line} in {fn}", call_stack=[f"{m}:{q}" for m, q in e.stack])
         out["sig"] = _sig(f"{e.kind}|{fn}|{e.msg}")
+    except (nf.ShapeError, nf.LayoutError) as e:
+        # raised while combining the implementation's results with each other / with the reference:
+        # the returned arrays do not have the shape / component order the property prescribes
+        out["verdict"] = REFUTED
+        out["detail"] = dict(kind=type(e).__name__, message=str(e), where="result fields vs reference layout")
+        out["sig"] = _sig(f"{type(e).__name__}|result|{e}")
     except PyRaise as e:
         out["verdict"] = REFUTED
         site = e.site or ("?", "?", 0)
